@@ -376,6 +376,11 @@ def check_attached(case):
         ref_form = "tle"
     else:
         R = case["ref_frame"]
+        if kind == "kepler":
+            # the reference goes through the library's Kepler propagator, i.e. through keplerian elements: keep them regular
+            el = dict(el, i=min(max(el["i"], 0.05), math.pi - 0.05))
+            if el["e"] < 1:
+                el["e"] = max(el["e"], 1e-3)
         c0 = cart(el, mu)                 # coordinates in the axes of R
         d0 = mkdate(case["t"])
         ref_form = case["ref_form"]
@@ -537,7 +542,9 @@ def epoch_of(case, sp):
 
 
 def relabel(date, scale):
-    return date if scale in (None, "UTC") else date.change_scale(scale)
+    if scale is None or date.scale.name == scale:
+        return date
+    return date.change_scale(scale)
 
 
 def dv_spelling(vec, how):
@@ -631,7 +638,9 @@ def run_library(c0, d0, h_us, n, mans, sp=None):
         if not np.all(np.isfinite(y)):
             raise Violation("propagation-nonfinite", f"state {k} of the propagation with maneuvers is {y.tolist()}")
         off = (o.date - d0).total_seconds() - k * h_us / 1e6
-        if abs(off) > 2.5e-6:     # dates are kept to the microsecond; a UT1 / TDB label costs one more
+        # dates are kept to the microsecond, a UT1 / TDB label costs one more; a TDB second is not an SI second on the
+        # geoid (3.3e-10 at most)
+        if abs(off) > 2.5e-6 + (1e-9 * k * h_us / 1e6 if d0.scale.name == "TDB" else 0.0):
             raise Violation("grid-date", f"point {k} is dated {off:+.3g} s off the integration grid")
         out.append(y)
     if len(out) != n + 1:
@@ -1055,7 +1064,9 @@ def check_continuous(case):
     if isinstance(obj, np.ndarray):
         obj += 1.0                      # the caller's array is not kept by reference
     # (a TDB second is not a TT second: up to 3.3e-10 of the duration when the burn is dated in TDB)
-    wtol = 2e-6 + (1e-9 * secs if man_scale == "TDB" else 0.0)
+    label = man.date.scale.name
+    inexact = label in ("UT1", "TDB") or d0.scale.name in ("UT1", "TDB")
+    wtol = 2e-6 + (1e-9 * (secs + stop / 1e6) if "TDB" in (label, d0.scale.name) else 0.0)
     if abs((man.start - d0).total_seconds() - start / 1e6) > wtol or abs((man.stop - d0).total_seconds() - stop / 1e6) > wtol:
         raise Violation("cont-window", f"burn window [{(man.start - d0).total_seconds()}, {(man.stop - d0).total_seconds()}) s, "
                         f"expected [{start / 1e6}, {stop / 1e6})")
@@ -1066,8 +1077,10 @@ def check_continuous(case):
     ys = run_library(c0, d0, h_us, n, [man], sp)
     res = defects(ys, h, mu)
     on_grid = start % h_us == 0 and stop % h_us == 0
-    if man_scale in ("UT1", "TDB"):
+    eps_us = 0
+    if inexact:
         on_grid = False                 # such a label is kept to the microsecond only: the edges leave the grid
+        eps_us = 3 + int(1e-3 * (secs + stop / 1e6)) if "TDB" in (label, d0.scale.name) else 3    # ... by this much at most
     worst = 0.0
     vnorm = float(np.linalg.norm(ys[0][3:]))
     floor = 1e-13 * vnorm
@@ -1089,14 +1102,14 @@ def check_continuous(case):
         # angle swept by the local axes during the step: orbital motion + the turn the thrust itself gives the velocity
         # (an out-of-plane or transverse push turns the axes at accel / transverse velocity)
         theta = theta_of(ys, j, h, mu) + amag * h / min(vperp(ys[j]), vperp(ys[j + 1]))
-        if hi < start or lo > stop:
+        if hi < start - eps_us or lo > stop + eps_us:
             tr, tv = quiet_tol(ys[j + 1])
             worst = max(worst, dr / tr, dv / tv)
             if dr > tr or dv > tv:
                 raise Violation("burn-outside-window",
                                 f"step {j} -> {j + 1} ([{lo / 1e6}, {hi / 1e6}] s) does not touch the burn "
                                 f"[{start / 1e6}, {stop / 1e6}) s but the velocity departs by {dv:.6g} m/s from a free step", step=j)
-        elif start <= lo and hi < stop:
+        elif start + eps_us <= lo and hi < stop - eps_us:
             # thrust during the whole step: what the step gained = (exact arc with thrust) - (exact free arc),
             # up to the difference of the Runge-Kutta truncation errors of the two arcs (theta^4 |accel| step)
             interior += 1
@@ -1192,6 +1205,106 @@ def check_continuous(case):
         cls.append("crosses-utc-midnight")
     return dict(nt=(not on_grid) or el["e"] > 1, cls=cls, ratio=worst,
                 parts=dict(sharp=worst, quadrature=quad, end=endfrac))
+
+
+# ------------------------------------------------------------------ continuous burns under the other methods
+
+
+@st.composite
+def cont_methods_case(draw):
+    el = draw(go.elements(hyperbolic=False, emax_ell=0.8, rp_range=(1.03, 4.0)))
+    h_us = draw(st.integers(30, 120)) * 10**6
+    lead = draw(st.integers(2, 4))
+    start = draw(instant(h_us, lead * h_us, (lead + 1) * h_us))
+    dur = draw(st.integers(2, 8)) * h_us if draw(st.booleans()) else draw(go.uniform_int(2 * h_us, 8 * h_us))
+    n = -(-(start + dur) // h_us) + 3
+    return dict(el=el, h_us=h_us, n=n, start=start, dur=dur, t0=draw(epochs(n * h_us)), dv=draw(vec3(-2.0, 2.0)),
+                tag=draw(st.sampled_from(TAGS)), mode=draw(st.sampled_from(["dv", "accel"])),
+                method=draw(st.sampled_from(["euler", "rkf54", "dopri54"])))
+
+
+def check_cont_methods(case):
+    """euler / rkf54 / dopri54: steps that do not touch the burn are free arcs, steps inside it gain |accel| x their
+    length along the stated axes, and the whole burn delivers its delta-v within |accel| x the longest step."""
+    from beyond.dates import timedelta
+    from beyond.env.solarsystem import get_body
+    from beyond.orbits import Orbit
+    from beyond.orbits.man import ContinuousMan
+    from beyond.propagators.keplernum import KeplerNum
+
+    mu = mu_earth()
+    el = case["el"]
+    c0 = cart(el, mu)
+    d0 = mkdate(case["t0"])
+    h_us, n, method = case["h_us"], case["n"], case["method"]
+    start, stop = case["start"] / 1e6, (case["start"] + case["dur"]) / 1e6
+    secs = case["dur"] / 1e6
+    dvv = np.array(case["dv"], float)
+    cap = dv_cap(c0, n * h_us / 1e6 * 1.1, mu)
+    if float(np.linalg.norm(dvv)) > cap:
+        dvv = dvv * cap / float(np.linalg.norm(dvv))
+    acc = dvv / secs
+    amag = float(np.linalg.norm(acc))
+    date = d0 + timedelta(microseconds=case["start"])
+    dur = timedelta(microseconds=case["dur"])
+    man = (ContinuousMan(date, dur, dv=list(dvv), frame=case["tag"]) if case["mode"] == "dv"
+           else ContinuousMan(date, dur, accel=list(acc), frame=case["tag"]))
+    orb = Orbit(c0, d0, "cartesian", "EME2000", KeplerNum(timedelta(microseconds=h_us), get_body("Earth"), method=method))
+    orb.maneuvers = man
+    kw = {} if method == "euler" else dict(real_steps=True)
+    ts, ys = [], []
+    for o in orb.iter(stop=d0 + timedelta(microseconds=n * h_us), **kw):
+        y = np.array(o.base, float)
+        if not np.all(np.isfinite(y)):
+            raise Violation("propagation-nonfinite", f"point {len(ys)} of the {method} propagation is {y.tolist()}")
+        ts.append((o.date - d0).total_seconds())
+        ys.append(y)
+    if len(ys) < 3 or ts[-1] < n * h_us / 1e6 - 1e-6:
+        raise Violation("grid-length", f"{method}: {len(ys)} points, last at {ts[-1] if ts else None} s")
+    frame = case["tag"].upper() if case["tag"] else None
+    QUIET_V = 0.0 if method == "euler" else 1e-5
+    worst = 0.0
+    delivered = 0.0
+    hmax = 0.0
+    for j in range(len(ys) - 1):
+        hj = ts[j + 1] - ts[j]
+        free = free_step(ys[j], hj, mu, "euler") if method == "euler" else tb.propagate_uv(ys[j], hj, mu)
+        res = ys[j + 1] - free
+        dv = float(np.linalg.norm(res[3:]))
+        floor = 1e-12 * float(np.linalg.norm(ys[j][3:])) + QUIET_V
+        theta = theta_of(ys, j, hj, mu) + amag * hj / min(vperp(ys[j]), vperp(ys[j + 1]))
+        if ts[j + 1] < start - 1e-5 or ts[j] > stop + 1e-5:
+            worst = max(worst, dv / floor)
+            if dv > floor:
+                raise Violation("burn-outside-window", f"{method}: step [{ts[j]}, {ts[j + 1]}] s does not touch the burn "
+                                f"[{start}, {stop}) s but gains {dv:.6g} m/s over the free arc", step=j)
+            continue
+        delivered += dv
+        hmax = max(hmax, hj)
+        if ts[j] >= start + 1e-5 and ts[j + 1] < stop - 1e-5:
+            want = amag * hj
+            tol = want * (3 * theta**2 + 1e-9) + floor
+            worst = max(worst, abs(dv - want) / tol)
+            if abs(dv - want) > tol:
+                raise Violation("burn-full-step", f"{method}: step [{ts[j]}, {ts[j + 1]}] s lies inside the burn: velocity gained "
+                                f"{dv!r} m/s, |accel| x step = {want!r} m/s", step=j)
+            mid = tb.propagate_uv(ys[j], hj / 2, mu)
+            wv = ig.to_inertial(acc, mid, frame) * hj
+            d = float(np.linalg.norm(res[3:] - wv))
+            if d > want * 1.5 * theta + floor:
+                raise Violation("burn-direction", f"{method}: step [{ts[j]}, {ts[j + 1]}] s gains {res[3:].tolist()}, thrust along "
+                                f"{case['tag']!r} axes gives {wv.tolist()}", step=j)
+    total = amag * secs
+    d = abs(delivered - total)
+    tol = amag * hmax * 2 + QUIET_V * len(ys)
+    if d > tol:
+        raise Violation("burn-total", f"{method}: burn of {secs} s delivered {delivered!r} m/s, stated {total!r} m/s "
+                        f"(allowance {tol:.3g})", delivered=delivered, stated=total)
+    hs = np.diff(ts)
+    cls = el_classes(el) + [method, f"tag:{case['tag']}", case["mode"]]
+    if method != "euler":
+        cls.append("step-reduced" if float(np.min(hs[:-1])) < 0.99 * h_us / 1e6 else "step-as-requested")
+    return dict(nt=True, cls=cls, ratio=worst, parts=dict(sharp=worst, quadrature=d / (amag * hmax)))
 
 
 # ------------------------------------------------------------------ dkep
@@ -1314,6 +1427,8 @@ FACETS = [
     Facet("impulse_adaptive", lambda s, t: adaptive_case(), check_adaptive, setup=setup,
           rule="the error control actually reduced the requested step (class step-reduced)",
           quick=(8, 40), thorough=(16, 400)),
+    Facet("continuous_methods", lambda s, t: cont_methods_case(), check_cont_methods, setup=setup,
+          rule="every case (euler, rkf54, dopri54)", quick=(4, 40), thorough=(8, 400)),
     Facet("continuous_delivery", lambda s, t: continuous_case(), check_continuous, setup=setup,
           rule="a burn edge off the integration grid, or a hyperbolic state",
           quick=(16, 20), thorough=(32, 200)),
